@@ -15,6 +15,8 @@ def gen_script(rng, N, bs):
             lines.append('n')
         elif r < 0.28:
             lines.append('c')
+        elif r < 0.31:
+            lines.append(rng.choice(['mv', 'mv', 'ma']))      # a move in the middle of an iteration: tops and contents travel
         elif r < 0.40:
             # exact fit / one over / one under at a random alignment (harness computes the size from capacity_left)
             lines.append('x %d %d %s' % (rng.choice([1, 1, 2, 4, 8, 16, 32, 64, 256]), rng.choice([-1, 0, 0, 1]), rng.choice('at')))
